@@ -46,6 +46,9 @@ Observe ==
     \* pair phase of the driver: each time the only two holders of a content had both returned from drop, that
     \* content was quiescent - TableLive then says the table has no entry for it; the driver counts the times it had
     /\ ("pair_stale" \in DOMAIN Ev => Ev.pair_stale = 0)
+    \* burst phase of the driver: all threads interned the same content at the same moment and held their handles:
+    \* Dedup says they share one buffer; the driver counts the times they did not
+    /\ ("burst_split" \in DOMAIN Ev => Ev.burst_split = 0)
     /\ Ev.final => \A t \in Threads, i \in Slots : P.slot[t][i] = NoBuf
     /\ slot' = P.slot /\ made' = P.made /\ pending' = P.pending /\ table' = P.table
     /\ strong' = P.strong /\ bcontent' = P.bcontent /\ nextBuf' = P.next
